@@ -64,7 +64,9 @@ func runC15(c *Ctx) {
 		}
 		fwd = append(fwd, fn)
 		c.Analysed(fn)
-		for _, ci := range callsIn(fn, func(nm string, cc *ssa.CallCommon) bool { return methodName(cc) == "Write" || methodName(cc) == "BufferPayload" }) {
+		for _, ci := range callsIn(fn, func(nm string, cc *ssa.CallCommon) bool {
+			return methodName(cc) == "Write" || methodName(cc) == "BufferPayload"
+		}) {
 			nF++
 			a := lastArg(ci.Common())
 			c.Check("forward-payload", "Write(pc.Payload)@"+shortName(fn), ci, isPayloadOf(a, pcParam.Name()),
@@ -205,6 +207,10 @@ func runC15(c *Ctx) {
 		ok2, at2 := follow(true)
 		c.Check("default-forwards", h, at2, ok2, "a known packet type that no case intercepts (type-switch default) is not forwarded synchronously with its received context")
 	}
+
+	// (4a) the received payload is the whole frame (no zero-padded short read)
+	codecFns := c.P.Funcs(Mod + "/" + pkgCodec)
+	checkFullReader(c, codecFns, NewLockCtx(c.P, codecFns))
 
 	// (4) netmc / codec pass the slice through
 	if w := c.MustFunc(pkgNetmc + ":(*minecraftConn).Write"); w != nil {
